@@ -127,46 +127,90 @@ theorem grid_head (start step : Int) (n : Nat) : (grid start step n).head? = som
 theorem grid_getLast (start step : Int) (n : Nat) : (grid start step n).getLast? = some (start + (n : Int) * step) := by
   simp [grid, List.range_succ]
 
-/-- the marching loop of `KeplerNum._iter` (forward or backward, with or without padding to `order` points) ends within any
-number `m` of integration steps after which the loop condition is false; it has then tabulated `date + k·hs`, `k = 0 … m'`,
-for the first such `m' ≤ m` -/
-theorem march_some (backward interp : Bool) (order : Nat) (hs stop : Int) (m : Nat) : ∀ (len : Nat) (date : Int) (fuel : Nat),
-    (if backward then decide (date + (m : Int) * hs > stop) else decide (date + (m : Int) * hs < stop)) = false →
+/-- signed integration steps: `−rs len` when integrating backward -/
+def sdelta (backward : Bool) (rs : Nat → Int) : Nat → Int := fun len => if backward then -(rs len) else rs len
+
+/-- the dates of an integration: `date`, then `k` steps of signed lengths `δ len, δ (len+1), …` -/
+def path (δ : Nat → Int) : Nat → Int → Nat → List Int
+  | _, date, 0 => [date]
+  | len, date, k + 1 => date :: path δ (len + 1) (date + δ len) k
+
+/-- the date reached after `k` such steps -/
+def endp (δ : Nat → Int) : Nat → Int → Nat → Int
+  | _, date, 0 => date
+  | len, date, k + 1 => endp δ (len + 1) (date + δ len) k
+
+theorem path_head (δ : Nat → Int) (len : Nat) (date : Int) (k : Nat) : (path δ len date k).head? = some date := by
+  cases k <;> simp [path]
+
+theorem path_length (δ : Nat → Int) : ∀ (k len : Nat) (date : Int), (path δ len date k).length = k + 1 := by
+  intro k
+  induction k with
+  | zero => intro len date; simp [path]
+  | succ k ih => intro len date; simp [path, ih]
+
+theorem path_getLast (δ : Nat → Int) : ∀ (k len : Nat) (date : Int), (path δ len date k).getLast? = some (endp δ len date k) := by
+  intro k
+  induction k with
+  | zero => intro len date; simp [path, endp]
+  | succ k ih =>
+    intro len date
+    have hne : path δ (len + 1) (date + δ len) k ≠ [] := by
+      intro h; have := path_length δ k (len + 1) (date + δ len); rw [h] at this; simp at this
+    simp only [path, endp]
+    rw [List.getLast?_cons_of_ne_nil hne]
+    exact ih (len + 1) (date + δ len)
+
+/-- fixed-step methods: the integration points are the grid `date + k·h` -/
+theorem path_const (h : Int) : ∀ (k len : Nat) (date : Int), path (fun _ => h) len date k = grid date h k := by
+  intro k
+  induction k with
+  | zero => intro len date; simp [path, grid_zero]
+  | succ k ih => intro len date; simp [path, grid_succ, ih]
+
+theorem endp_const (h : Int) : ∀ (k len : Nat) (date : Int), endp (fun _ => h) len date k = date + (k : Int) * h := by
+  intro k
+  induction k with
+  | zero => intro len date; simp [endp]
+  | succ k ih => intro len date; simp only [endp, ih]; push_cast; ring
+
+/-- the marching loop of `KeplerNum._iter` (forward or backward, with or without padding to `order` points, whatever the
+lengths of the integration steps) ends within any number `m` of steps after which the loop condition is false; it has then
+tabulated the first `m' + 1` dates of the integration, for the first such `m' ≤ m` -/
+theorem march_some (backward interp : Bool) (order : Nat) (rs : Nat → Int) (stop : Int) (m : Nat) : ∀ (len : Nat) (date : Int) (fuel : Nat),
+    (if backward then decide (endp (sdelta backward rs) len date m > stop) else decide (endp (sdelta backward rs) len date m < stop)) = false →
     (interp = true → order ≤ len + m) → m < fuel →
-    ∃ m' : Nat, m' ≤ m ∧ (march backward interp order hs stop fuel len date).map (date :: ·) = some (grid date hs m') ∧
-      (if backward then decide (date + (m' : Int) * hs > stop) else decide (date + (m' : Int) * hs < stop)) = false ∧
+    ∃ m' : Nat, m' ≤ m ∧ (march backward interp order rs stop fuel len date).map (date :: ·) = some (path (sdelta backward rs) len date m') ∧
+      (if backward then decide (endp (sdelta backward rs) len date m' > stop) else decide (endp (sdelta backward rs) len date m' < stop)) = false ∧
       (interp = true → order ≤ len + m') := by
   induction m with
   | zero =>
     intro len date fuel hfar hord hf
     obtain ⟨f, rfl⟩ : ∃ f, fuel = f + 1 := ⟨fuel - 1, by omega⟩
-    simp only [Nat.cast_zero, zero_mul, add_zero] at hfar
-    refine ⟨0, le_refl _, ?_, by simpa using hfar, hord⟩
+    have hfar0 : (if backward then decide (date > stop) else decide (date < stop)) = false := hfar
+    refine ⟨0, le_refl _, ?_, hfar, hord⟩
     have hlen : (interp && decide (len < order)) = false := by
       cases interp with
       | false => rfl
       | true => have := hord rfl; simp; omega
-    simp [march, hfar, hlen, grid_zero]
+    simp [march, hfar0, hlen, path]
   | succ m ih =>
     intro len date fuel hfar hord hf
     obtain ⟨f, rfl⟩ : ∃ f, fuel = f + 1 := ⟨fuel - 1, by omega⟩
     by_cases hc : ((if backward then decide (date > stop) else decide (date < stop)) || (interp && decide (len < order))) = true
-    · have e : date + ((m + 1 : Nat) : Int) * hs = date + hs + (m : Int) * hs := by push_cast; ring
-      rw [e] at hfar
-      obtain ⟨m', hm', hmarch, hfar', hord'⟩ := ih (len + 1) (date + hs) f hfar (fun hi => by have := hord hi; omega) (by omega)
-      refine ⟨m' + 1, by omega, ?_, ?_, fun hi => by have := hord' hi; omega⟩
-      · rw [grid_succ]
-        simp only [march, hc, if_true]
-        cases hm : march backward interp order hs stop f (len + 1) (date + hs) with
-        | none => simp [hm] at hmarch
-        | some l => simp [hm] at hmarch; simp [hmarch]
-      · have e' : date + ((m' + 1 : Nat) : Int) * hs = date + hs + (m' : Int) * hs := by push_cast; ring
-        rw [e']; exact hfar'
+    · obtain ⟨m', hm', hmarch, hfar', hord'⟩ := ih (len + 1) (date + sdelta backward rs len) f hfar (fun hi => by have := hord hi; omega) (by omega)
+      refine ⟨m' + 1, by omega, ?_, hfar', fun hi => by have := hord' hi; omega⟩
+      simp only [march, hc, if_true, path]
+      have e : date + (if backward = true then -(rs len) else rs len) = date + sdelta backward rs len := rfl
+      rw [e]
+      cases hm : march backward interp order rs stop f (len + 1) (date + sdelta backward rs len) with
+      | none => simp [hm] at hmarch
+      | some l => simp [hm] at hmarch; simp [hmarch]
     · have hc' : ((if backward then decide (date > stop) else decide (date < stop)) || (interp && decide (len < order))) = false :=
         Bool.eq_false_iff.mpr hc
       rw [Bool.or_eq_false_iff] at hc'
-      refine ⟨0, Nat.zero_le _, ?_, by simpa using hc'.1, ?_⟩
-      · simp [march, hc'.1, hc'.2, grid_zero]
+      refine ⟨0, Nat.zero_le _, ?_, hc'.1, ?_⟩
+      · simp [march, hc'.1, hc'.2, path]
       · intro hi
         have := hc'.2
         simp [hi] at this
@@ -316,37 +360,40 @@ theorem ephemIter_own_up (fuel order : Nat) (pts : List Int) (first last stop : 
   unfold ephemIter
   simp only [hh, hl, hng, Stop.resolve, if_false, Option.getD_none]
 
-/-- `KeplerNum._iter`, forward range (or explicit dates spanning `start … stop`): given fuel for any `m` integration steps that
-reach stop and fill the interpolation order, the integration grid `start + k·h`, `k ≤ m'`, reaches stop, holds at least `order`
-points whenever an output is interpolated, and is handed to `Ephem.iter` with `stop` as its last date -/
-theorem numCore_forward (fuel order : Nat) (h start stop : Int) (kstep : Option Int) (dates : Option Dates) (listening : Bool)
-    (m : Nat) (hfw : start ≤ stop) (hm : stop ≤ start + (m : Int) * h) (hmo : order ≤ m + 1) (hf : m < fuel) :
-    ∃ m' : Nat, stop ≤ start + (m' : Int) * h ∧ ((dates.isSome || kstep.isSome || listening) = true → order ≤ m' + 1) ∧
-      numCore fuel order h start stop kstep dates listening
-        = (true, ephemIter fuel order (grid start h m') dates none (if dates.isNone then some (.at stop) else none) kstep true) := by
+theorem sdelta_false (rs : Nat → Int) : sdelta false rs = rs := by funext k; simp [sdelta]
+
+/-- `KeplerNum._iter`, forward range (or explicit dates spanning `start … stop`), whatever the lengths `rs` of the integration
+steps: given fuel for any `m` steps that reach stop and fill the interpolation order, the integration points reach stop, number
+at least `order` whenever an output is interpolated, and are handed to `Ephem.iter` with `stop` as its last date -/
+theorem numCore_forward (fuel order : Nat) (h : Int) (rs : Nat → Int) (start stop : Int) (kstep : Option Int) (dates : Option Dates)
+    (listening : Bool) (m : Nat) (hfw : start ≤ stop) (hm : stop ≤ endp rs 1 start m) (hmo : order ≤ m + 1) (hf : m < fuel) :
+    ∃ m' : Nat, stop ≤ endp rs 1 start m' ∧ ((dates.isSome || kstep.isSome || listening) = true → order ≤ m' + 1) ∧
+      numCore fuel order h rs start stop kstep dates listening
+        = (true, ephemIter fuel order (path rs 1 start m') dates none (if dates.isNone then some (.at stop) else none) kstep true) := by
   have hb : decide (stop < start) = false := by simp; omega
-  obtain ⟨m', _, hmarch, hfar, hord⟩ := march_some false (dates.isSome || kstep.isSome || listening) order h stop m 1 start fuel
-    (by simp; omega) (fun _ => by omega) hf
+  obtain ⟨m', _, hmarch, hfar, hord⟩ := march_some false (dates.isSome || kstep.isSome || listening) order rs stop m 1 start fuel
+    (by rw [sdelta_false]; simp; omega) (fun _ => by omega) hf
+  rw [sdelta_false] at hmarch hfar
   simp only [Bool.false_eq_true, if_false, decide_eq_false_iff_not, not_lt] at hfar
   refine ⟨m', hfar, fun hi => by have := hord hi; omega, ?_⟩
   unfold numCore
   simp only [hb, Bool.false_eq_true, if_false, Bool.false_and]
-  cases hmm : march false (dates.isSome || kstep.isSome || listening) order h stop fuel 1 start with
+  cases hmm : march false (dates.isSome || kstep.isSome || listening) order rs stop fuel 1 start with
   | none => rw [hmm] at hmarch; simp at hmarch
   | some more =>
     rw [hmm] at hmarch
     simp only [Option.map_some, Option.some.injEq] at hmarch
     simp [hmarch, hfw]
 
-/-- `KeplerNum._iter`, backward range with the (negative) step `s` it receives from `NumericalPropagator.iter`: the grid
-`start − k·h` is integrated down to stop and to `order` points, and `Ephem.iter` is given the dates `Date.range(start, stop, s)` -/
-theorem numCore_backward (fuel order : Nat) (h start stop s : Int) (listening : Bool) (m : Nat)
-    (hbw : stop < start) (hs : s < 0) (hm : start + (m : Int) * (-h) ≤ stop) (hmo : order ≤ m + 1) (hf : m < fuel) :
-    ∃ m' : Nat, start + (m' : Int) * (-h) ≤ stop ∧ order ≤ m' + 1 ∧
-      numCore fuel order h start stop (some s) none listening
-        = (true, ephemIter fuel order (grid start (-h) m').reverse (some (.range start stop s true)) none none (some s) true) := by
+/-- `KeplerNum._iter`, backward range with the (negative) step `s` it receives from `NumericalPropagator.iter`: the integration
+runs down to stop and to `order` points, and `Ephem.iter` is given the dates `Date.range(start, stop, s)` -/
+theorem numCore_backward (fuel order : Nat) (h : Int) (rs : Nat → Int) (start stop s : Int) (listening : Bool) (m : Nat)
+    (hbw : stop < start) (hs : s < 0) (hm : endp (sdelta true rs) 1 start m ≤ stop) (hmo : order ≤ m + 1) (hf : m < fuel) :
+    ∃ m' : Nat, endp (sdelta true rs) 1 start m' ≤ stop ∧ order ≤ m' + 1 ∧
+      numCore fuel order h rs start stop (some s) none listening
+        = (true, ephemIter fuel order (path (sdelta true rs) 1 start m').reverse (some (.range start stop s true)) none none (some s) true) := by
   have hb : decide (stop < start) = true := by simp; omega
-  obtain ⟨m', _, hmarch, hfar, hord⟩ := march_some true ((none : Option Dates).isSome || (some s).isSome || listening) order (-h) stop m 1
+  obtain ⟨m', _, hmarch, hfar, hord⟩ := march_some true ((none : Option Dates).isSome || (some s).isSome || listening) order rs stop m 1
     start fuel (by simpa using hm) (fun _ => by omega) hf
   simp only [if_true, decide_eq_false_iff_not, not_lt, gt_iff_lt] at hfar
   refine ⟨m', hfar, by have := hord (by simp); omega, ?_⟩
@@ -354,7 +401,7 @@ theorem numCore_backward (fuel order : Nat) (h start stop s : Int) (listening : 
   have e2 : pySign s = -1 := by unfold pySign; rw [if_neg]; omega
   unfold numCore
   simp only [hb, if_true]
-  cases hmm : march true ((none : Option Dates).isSome || (some s).isSome || listening) order (-h) stop fuel 1 start with
+  cases hmm : march true ((none : Option Dates).isSome || (some s).isSome || listening) order rs stop fuel 1 start with
   | none => rw [hmm] at hmarch; simp at hmarch
   | some more =>
     rw [hmm] at hmarch
@@ -468,21 +515,21 @@ theorem loop_range_mem_down (s1 st : Int) (incl : Bool) (hs : st < 0) : ∀ (fue
         exact ⟨this.1, by omega⟩
     · simp [loop, hc] at h
 
-/-- `KeplerNum._iter` with the dates of a backward `DateRange` (or any dates spanning `stop … start`, `stop < start`): the grid
-`start − k·h` is integrated down to stop and to `order` points, sorted, and `Ephem.iter` is given the dates -/
-theorem numCore_backward_dates (fuel order : Nat) (h start stop : Int) (ds : Dates) (listening : Bool) (m : Nat)
-    (hbw : stop < start) (hm : start + (m : Int) * (-h) ≤ stop) (hmo : order ≤ m + 1) (hf : m < fuel) :
-    ∃ m' : Nat, start + (m' : Int) * (-h) ≤ stop ∧ order ≤ m' + 1 ∧
-      numCore fuel order h start stop none (some ds) listening
-        = (true, ephemIter fuel order (grid start (-h) m').reverse (some ds) none none none true) := by
+/-- `KeplerNum._iter` with the dates of a backward `DateRange` (or any dates spanning `stop … start`, `stop < start`): the
+integration runs down to stop and to `order` points, the points are sorted, and `Ephem.iter` is given the dates -/
+theorem numCore_backward_dates (fuel order : Nat) (h : Int) (rs : Nat → Int) (start stop : Int) (ds : Dates) (listening : Bool) (m : Nat)
+    (hbw : stop < start) (hm : endp (sdelta true rs) 1 start m ≤ stop) (hmo : order ≤ m + 1) (hf : m < fuel) :
+    ∃ m' : Nat, endp (sdelta true rs) 1 start m' ≤ stop ∧ order ≤ m' + 1 ∧
+      numCore fuel order h rs start stop none (some ds) listening
+        = (true, ephemIter fuel order (path (sdelta true rs) 1 start m').reverse (some ds) none none none true) := by
   have hb : decide (stop < start) = true := by simp; omega
-  obtain ⟨m', _, hmarch, hfar, hord⟩ := march_some true ((some ds).isSome || (none : Option Int).isSome || listening) order (-h) stop m 1
+  obtain ⟨m', _, hmarch, hfar, hord⟩ := march_some true ((some ds).isSome || (none : Option Int).isSome || listening) order rs stop m 1
     start fuel (by simpa using hm) (fun _ => by omega) hf
   simp only [if_true, decide_eq_false_iff_not, not_lt, gt_iff_lt] at hfar
   refine ⟨m', hfar, by have := hord (by simp); omega, ?_⟩
   unfold numCore
   simp only [hb, if_true]
-  cases hmm : march true ((some ds).isSome || (none : Option Int).isSome || listening) order (-h) stop fuel 1 start with
+  cases hmm : march true ((some ds).isSome || (none : Option Int).isSome || listening) order rs stop fuel 1 start with
   | none => rw [hmm] at hmarch; simp at hmarch
   | some more =>
     rw [hmm] at hmarch
